@@ -182,8 +182,9 @@ class Adapter:
             return None
         else:
             raise core.Machinery("unknown op %r" % op)
-        if len(w.kill_log) > nk and op != "signal":
-            return "%s sent signals %r" % (op, w.kill_log[nk:])
+        sent = [x for x in w.kill_log[nk:] if x[1] != 0]      # kill(pid, 0) is an existence probe, not a signal
+        if sent and op != "signal":
+            return "%s sent signals %r" % (op, sent)
         for (pid, sig, inc) in w.kill_log[nk:]:
             if pid <= 0:
                 return "signalled pid %d" % pid
